@@ -1,7 +1,8 @@
 """C15 - expressions: operator table (bounded witnesses); unary minus in the parser is added by the Verus engine."""
 from common import *
 OBLIGATIONS = [
-    ob('C15.calc.table', 'verif_frag::calc::c15_calc_witnesses', 'ArithmeticOp::calc dispatch: + - * / applied to (left, right) in that order, on 8 concrete witness pairs with pairwise distinct results', units=['calc'], complete=False, bound='8 concrete operand pairs (symbolic f64 arithmetic does not terminate in CBMC; % not modelled)'),
+    ob('C15.calc.table', 'verif_frag::calc::c15_calc_witnesses', 'ArithmeticOp::calc dispatch: + - * / applied to (left, right) in that order, on 8 concrete witness pairs with pairwise distinct results', units=['cmp', 'calc'], complete=False, bound='8 concrete operand pairs (symbolic f64 arithmetic does not terminate in CBMC; % not modelled)'),
+    ob('C15.calc.total', 'verif_frag::calc::c15_calc_total', 'ArithmeticOp::calc does not panic on fractional or zero divisors for / and % (5 witnesses; the value of % is not checked)', units=['cmp', 'calc'], complete=False, bound='5 concrete operand pairs'),
 ]
 for h, d in [('operator', 'size + 1 / size - 1 / size * 1'), ('brackets', '2 + 3 * 4 vs (2 + 3) * 4; 1 - (2 - 3) vs (1 - 2) - 3'), ('args', 'substr(name,1,2) vs substr(name,1,3)'), ('sign', '-size vs size; length(name) vs name')]:
     OBLIGATIONS.append(ob(f'C15.display.injective.{h}', 'verif_frag::exprkey::c15_key_' + h, f'Display for Expr (verbatim body on shim types) gives different cache keys to: {d}', units=['exprkey'], complete=False, bound='concrete expression pairs'))
